@@ -7,7 +7,7 @@ Tie/judgement on the real binary (debug and release builds, CPU-time and address
   never any other status, never a timeout.
 Inputs: structure-aware mutations of valid grammars, planted mistakes, multi-line constructs, escapes,
 non-ASCII and invalid UTF-8, token soups; x 4 shells x {file, stdout}."""
-from .. import build, impl, planted, report
+from .. import build, canon, impl, model, planted, report, sexp
 
 SHELLS = planted.SHELLS
 
@@ -216,7 +216,63 @@ def run(ctx, res):
                                     stderr_first=b['stderr'].split(b'\n')[0].decode('latin-1')[:120]))
     res.nontrivial = len(set(t for _, t in cs))
     res.traces_validated = res.evaluations
+    end_to_end(ctx, res, cs)
     res.extra['inputs_per_kind'] = kinds
     res.extra['outcomes'] = outcomes
     res.assumptions = ['stack exhaustion on extreme nesting depth and exponential expansion of definitions are outside the generators '
                        '(see known_findings.json) and outside what the Gallina model can exhibit']
+
+
+STAGE_OF = {'PARSE': 'parse', 'CHECK': 'check', 'REGEX': 'regex', 'RAW': 'subset', 'AMB': 'amb'}
+
+
+def end_to_end(ctx, res, cs):
+    """T1 for the whole model pipeline (Model/Driver.v: text -> parse -> check -> regex -> subset -> minimize ->
+    ambiguity) against the library on the same texts: same verdict (stage + error variant) or the same minimised
+    automaton up to state numbering; the model must never answer Panic / OutOfFuel (C06's totality claim)."""
+    with build.Lock():
+        exe = build.harness()
+    r = ctx['rng']
+    texts = [t for k, t in cs if not k.startswith('probe') and all(32 <= c < 127 or c in (9, 10, 12, 13) for c in t)]
+    r.shuffle(texts)
+    texts = texts[: (150 if ctx['tier'] == 'quick' else 6000)]
+    shells = [r.choice(SHELLS) for _ in texts]
+    dumps = impl.dump(exe, texts, ['parse', 'check', 'regex', 'raw', 'min', 'amb'], SHELLS)
+    reqs = ['compile %s 200000 %s' % (sh, sexp.quote(t.decode('latin-1'))) for t, sh in zip(texts, shells)]
+    outs = model.run(reqs)
+    agree = {'ok': 0, 'err': 0}
+    for t, sh, d, o in zip(texts, shells, dumps, outs):
+        st = d[sh]
+        res.evaluations += 1
+        replay = dict(kind='tie-end-to-end', grammar=t.decode('latin-1'), shell=sh, model=o[:1500],
+                      impl={k: v[:800] for k, v in st.items()})
+        m = sexp.parse(o)
+        if 'CRASH' in st or 'PANIC' in st:
+            res.violations.append(report.Violation('C06: the library crashed: %s' % (st.get('PANIC') or st.get('CRASH'))[:200],
+                                                   dict(replay, kind='spec-judgement'), cls=classify(t)))
+            continue
+        if m[0] in ('panic', 'outoffuel', 'drivererror'):
+            res.violations.append(report.Violation('C06: the model pipeline answers %s (totality of the model is what Props/C06.v rests on)' % o[:200],
+                                                   replay, found_input=False))
+            continue
+        err = [(STAGE_OF[s], sexp.parse(st[s])) for s in ('PARSE', 'CHECK', 'REGEX', 'RAW', 'AMB') if s in st and st[s].startswith('(err')]
+        if err:
+            stage, e = err[0]
+            variant = e[1][0]
+            ok = m[0] == 'err' and m[1] == stage and m[2][0] == variant
+            if ok and variant != 'NonterminalDefinitionsCycle' and stage in ('parse', 'check'):
+                ok = m[2] == e[1]
+            if ok:
+                agree['err'] += 1
+                res.traces_validated += 1
+            else:
+                res.violations.append(report.Violation('tie broken (end to end): library rejects at %s with %s, model says %s' % (stage, variant, o[:120]),
+                                                       replay, found_input=False))
+        elif 'MIN' in st and st['MIN'].startswith('(ok'):
+            ok = m[0] == 'ok' and canon.canon_dfa(m[2]) == canon.canon_dfa(sexp.parse(st['MIN'])[1])
+            if ok:
+                agree['ok'] += 1
+                res.traces_validated += 1
+            else:
+                res.violations.append(report.Violation('tie broken (end to end): minimised automata differ (up to state numbering)', replay, found_input=False))
+    res.extra['end_to_end'] = dict(texts=len(texts), agree=agree)
